@@ -242,7 +242,10 @@ namespace util {
 		void steal(std::ostream &out)
 		{
 			release();
-			stolen_ = out.rdbuf(this);
+			std::ios_base::iostate st = out.rdstate();
+			stolen_ = out.rdbuf(this);	// rdbuf(sb) clears the error state
+			if(st != std::ios_base::goodbit)
+				out.setstate(st);
 			stream_ = &out;
 		}
 		///
@@ -252,7 +255,10 @@ namespace util {
 		void release()
 		{
 			if(stream_ && stolen_) {
-				stream_->rdbuf(stolen_);
+				std::ios_base::iostate st = stream_->rdstate();
+				stream_->rdbuf(stolen_);	// rdbuf(sb) clears the error state
+				if(st != std::ios_base::goodbit)
+					stream_->setstate(st);
 			}
 			stream_ = 0;
 			stolen_ = 0;
@@ -338,7 +344,10 @@ namespace util {
 		{
 			release();
 			output_stream_ = &out;
-			output_ = out.rdbuf(this);
+			std::ios_base::iostate st = out.rdstate();
+			output_ = out.rdbuf(this);	// rdbuf(sb) clears the error state
+			if(st != std::ios_base::goodbit)
+				out.setstate(st);
 		}
 		int release()
 		{
@@ -346,7 +355,10 @@ namespace util {
 			if(output_stream_) {
 				if(write()!=0)
 					r=-1;
-				output_stream_->rdbuf(output_);
+				std::ios_base::iostate st = output_stream_->rdstate();
+				output_stream_->rdbuf(output_);	// rdbuf(sb) clears the error state
+				if(st != std::ios_base::goodbit)
+					output_stream_->setstate(st);
 				output_=0;
 				output_stream_=0;
 			}
@@ -396,13 +408,19 @@ namespace util {
 		{
 			release();
 			output_stream_ = &out;
-			output_ = out.rdbuf(this);
+			std::ios_base::iostate st = out.rdstate();
+			output_ = out.rdbuf(this);	// rdbuf(sb) clears the error state
+			if(st != std::ios_base::goodbit)
+				out.setstate(st);
 		}
 		int release()
 		{
 			int r=0;
 			if(output_stream_) {
-				output_stream_->rdbuf(output_);
+				std::ios_base::iostate st = output_stream_->rdstate();
+				output_stream_->rdbuf(output_);	// rdbuf(sb) clears the error state
+				if(st != std::ios_base::goodbit)
+					output_stream_->setstate(st);
 				output_=0;
 				output_stream_=0;
 			}
